@@ -1369,9 +1369,16 @@ func funUpper(v string) (string, error) {
 	return strings.ToUpper(v), nil
 }
 
+// maxPadLength bounds the length lpad / rpad will build: beyond it
+// strings.Repeat panics (length overflow) or the allocation cannot succeed.
+const maxPadLength = 1 << 24
+
 func funLpad(s, ps string, l int) (string, error) {
 	if l < 0 {
 		return "", fmt.Errorf("lpad: negative length %d", l)
+	}
+	if l > maxPadLength {
+		return "", fmt.Errorf("lpad: length %d too large", l)
 	}
 	if len(s) > int(l) {
 		return s[:int(l)], nil
@@ -1382,6 +1389,9 @@ func funLpad(s, ps string, l int) (string, error) {
 func funRpad(s, ps string, l int) (string, error) {
 	if l < 0 {
 		return "", fmt.Errorf("rpad: negative length %d", l)
+	}
+	if l > maxPadLength {
+		return "", fmt.Errorf("rpad: length %d too large", l)
 	}
 	if len(s) > int(l) {
 		return s[:int(l)], nil
